@@ -1,5 +1,5 @@
 # replay of a bounded stand-in violation (C14): re-run native/c14_io.py
 import sys
-print("xir MSgate: command 0 (MSgate): parameter 4 ('num', (1+0j)) loaded as ('str', 'True')")
+print("xir tdm-two-bands-dagger-select: loading what was saved raised TypeError: object of type 'int' has no len()")
 print('REPLAY-VIOLATION')
 sys.exit(1)
